@@ -224,7 +224,7 @@ def check_C08(ctx):
         cases.append((b'm', {b'm': text.encode()}, {'text': {'m': text}, 'defs': defs, 'main': main}))
     cases.append((b'm', {b'm': b'PROGRAM g IN y DO INCLUDE "c" x0 := y INCLUDE "b" PROGRAM f IN x DO x0 := x END x2 := 1',
                          b'c': b'x1 := 1;', b'b': b'END'}, {'text': 'F5 witness (header continuing a line after an include)'}))
-    a, b = front.corr_gen(ctx, cases)
+    a, b = front.corr_gen(ctx, cases, keys=['ok', 'code', 'pb', 'li'])
     sc = impl(ctx, ['SCAN ' + files_req(m, dict(f, **{})) for (m, f, _) in cases])
     for c, x, s in zip(cases, a, sc):
         ctx.cov['evaluations'] += 1
@@ -530,7 +530,7 @@ def check_C02(ctx):
         if 'F11' in str(d):
             return
         ctx.violation('compile-crash', 'compile() did not return normally (crash / sanitizer report / leak / timeout): ' + x[:400], d)
-    a, b = front.corr_gen(ctx, cases, crash_is_violation=crash)
+    a, b = front.corr_gen(ctx, cases, crash_is_violation=crash, keys=['ok', 'errs', 'req'])
     for (m, f, meta), x in zip(cases, a):
         ctx.cov['evaluations'] += 1
         if is_crash(x):
@@ -599,7 +599,7 @@ def check_C04(ctx, thms=None):
             text = sources.text_of_tokens(sources.respell(ts, r), r)
             cases.append((b'm', {b'm': text.encode('latin1')}, {'text': {'m': text}}))
             verdicts.append((v, why))
-    a, b = front.corr_gen(ctx, cases)
+    a, b = front.corr_gen(ctx, cases, keys=['ok', 'errs'])
     front.corr_parse(ctx, cases[:ctx.n(800, 5000)])
     for (m, f, meta), (v, why), x in zip(cases, verdicts, a):
         ctx.cov['evaluations'] += 1
